@@ -8,6 +8,7 @@ package main
 
 import (
 	"fmt"
+	"math"
 	"strings"
 	"time"
 
@@ -321,6 +322,12 @@ func c14Scenarios(tier string) []schedScenario {
 			mk(fmt.Sprintf("together+free P=4ms: %v || %v", a, b), [][]c14op{a, b}, 4*time.Millisecond, pb, 0, 0)
 			mk(fmt.Sprintf("together+free+hold P=4ms: %v || %v", a, b), [][]c14op{a, b}, 4*time.Millisecond, pb-1, 1, 0)
 		}
+	}
+	// very large timeouts (just below "forever"): the deadline arithmetic must not overflow; StopTimeoutClock ends
+	// the run because the clock legitimately stays alive until the deadline
+	for _, d := range []time.Duration{time.Duration(math.MaxInt64 - 1), time.Duration(math.MaxInt64) - 50*time.Millisecond, time.Duration(math.MaxInt64) - 200*time.Millisecond, 200 * 365 * 24 * time.Hour} {
+		mk(fmt.Sprintf("huge P=4ms: [Q(%d ns) S]", int64(d)), [][]c14op{{{'Q', d}, {'S', 0}}}, 4*time.Millisecond, 1, 0, 0)
+		mk(fmt.Sprintf("huge P=4ms: [Q(16ms) Q(%d ns) S]", int64(d)), [][]c14op{{{'Q', d1}, {'Q', d}, {'S', 0}}}, 4*time.Millisecond, 1, 0, 0)
 	}
 	// two clients start together, every shim operation is a pure scheduling point
 	for _, a := range [][]c14op{{{'Q', d1}}, {{'L', d1}}, {{'Q', d1}, {'Q', d2}}} {
